@@ -87,6 +87,7 @@ type EnvCase struct {
 	Revs []RevInfo `json:"revs,omitempty"`
 	// case-level facts for the monitors
 	SealDup  string   `json:"sealdup,omitempty"` // a (key, nonce) pair that was used twice
+	WeakNonce string  `json:"weaknonce,omitempty"`
 	KmsBad   []string `json:"kmsbad,omitempty"`  // EncryptKey inputs that are not key material
 	TornDown bool     `json:"torn_down"`
 	NSeals   int      `json:"nseals"`
@@ -105,6 +106,17 @@ func (x *envExec) finishCase(cs *EnvCase) {
 		seen[k] = i
 	}
 	cs.NSeals = len(x.crypto.Seals)
+	for i, s := range x.crypto.Seals {
+		z := 0
+		for j := 0; j < len(s.Nonce); j++ {
+			if s.Nonce[j] == 0 {
+				z++
+			}
+		}
+		if (len(s.Nonce) != 12 || z >= 6) && cs.WeakNonce == "" {
+			cs.WeakNonce = fmt.Sprintf("AEAD encrypt call #%d used nonce %x (not 12 fresh random bytes)", i, s.Nonce)
+		}
+	}
 	for _, in := range x.kmsSpy.EncInputs {
 		if in[0] != "K" {
 			cs.KmsBad = append(cs.KmsBad, fmt.Sprint(in))
